@@ -9,6 +9,12 @@ CI, CD = 3000, 100
 def cases(tier):
     cs = []
     def add(via, nins, ndel, badins=0, baddel=0, badhow="", crash=False, maxk=0):
+        cid = "%s_%d_%d_b%d_%d%s" % (via, nins, ndel, badins, baddel, badhow[:2])
+        for c in cs:
+            if c["id"] == cid:      # the same shape again: keep the wider sweep
+                c["crash"] = c["crash"] or crash
+                c["maxk"] = 0 if (maxk == 0 or c["maxk"] == 0) else max(c["maxk"], maxk)
+                return
         cs.append({"id": "%s_%d_%d_b%d_%d%s" % (via, nins, ndel, badins, baddel, badhow[:2]), "via": via, "nins": nins, "ndel": ndel,
                    "badins": badins, "baddel": baddel, "badhow": badhow, "crash": crash, "maxk": maxk})
     vias = ["manager-transact", "rest-patch", "grpc-transact"]
